@@ -20,7 +20,8 @@ import (
 // as was previously present.  There must not be new arguments or outputs.
 // Stages must not change their split, local, or preflight status, but may
 // change split in/out parameters or VDR mode.  File types may change their
-// names, and include structure may change.
+// names, and include structure may change.  Struct types used by parameters
+// must not change their members.
 //
 // Stages or pipelines outside the transitive closure from the top-level call
 // are ignored.
@@ -29,7 +30,68 @@ func (ast *Ast) EquivalentCall(other *Ast) bool {
 		other.Callables == nil || other.Callables.Table == nil {
 		return false
 	}
-	return ast.Call.EquivalentTo(other.Call, ast.Callables, other.Callables)
+	return ast.Call.EquivalentTo(other.Call, ast.Callables, other.Callables) &&
+		(ast.Call == nil || ast.equivalentParamTypes(other,
+			ast.Callables.Table[ast.Call.DecId]))
+}
+
+// Parameter sets compare struct types by name only.  Once the calls are known
+// to be equivalent, this checks that the struct types used by the parameters
+// of the callable, and of everything it calls, also have equivalent members.
+func (ast *Ast) equivalentParamTypes(other *Ast, callable Callable) bool {
+	if callable == nil {
+		return true
+	}
+	for _, param := range callable.GetInParams().List {
+		if !ast.equivalentType(other, param.Tname) {
+			return false
+		}
+	}
+	for _, param := range callable.GetOutParams().List {
+		if !ast.equivalentType(other, param.Tname) {
+			return false
+		}
+	}
+	if pipeline, ok := callable.(*Pipeline); ok {
+		for _, call := range pipeline.Calls {
+			if !ast.equivalentParamTypes(other, ast.Callables.Table[call.DecId]) {
+				return false
+			}
+		}
+	}
+	return true
+}
+
+// If the type is a struct, returns true if the struct of the same name in the
+// other ast has the same members, with the same types.  As for parameters,
+// changes to file type names are ignored.
+func (ast *Ast) equivalentType(other *Ast, id TypeId) bool {
+	id = TypeId{Tname: id.Tname}
+	st, ok := ast.TypeTable.baseTypes[id].(*StructType)
+	if !ok {
+		return true
+	}
+	ost, ok := other.TypeTable.baseTypes[id].(*StructType)
+	if !ok || len(ost.Members) != len(st.Members) {
+		util.PrintInfo("compare",
+			"Struct %s members do not match.",
+			st.Id)
+		return false
+	}
+	for _, m := range st.Members {
+		if om := ost.getMember(m.Id); om == nil ||
+			m.Tname.ArrayDim != om.Tname.ArrayDim ||
+			m.isFile != om.isFile ||
+			m.isFile != KindIsFile && m.Tname != om.Tname {
+			util.PrintInfo("compare",
+				"Struct %s member %s does not match.",
+				st.Id, m.Id)
+			return false
+		} else if !ast.equivalentType(other, m.Tname) {
+			return false
+		}
+	}
+	return true
 }
 
 // Two calls are semantically equivalent if their (possibly aliased) names are
